@@ -44,7 +44,9 @@ ASSUMPTIONS = [
     'header); mismatching lengths belong to C07',
     'JSON text is UTF-8 (RFC 8259); a charset parameter other than utf-8 is not exercised',
     'stdlib json (strict UTF-8 decode first) is the reference for "is this body a JSON document"; '
-    'a body whose nesting makes the stdlib parser raise RecursionError counts as undecodable',
+    'a body whose nesting makes the reference parser raise RecursionError counts as undecodable; a '
+    'well-formed document nested deeper than 200 levels may be returned or rejected as malformed '
+    '(parser capacity is an implementation limit), consistently across the history',
     'deserialize entries are counted by instance-level wrappers around deserialize, '
     'deserialize_async and the _deserialize_sync fast-path attribute of a stock handler, by a '
     'delegating BaseHandler subclass (generic path), and by the public loads= hook',
@@ -791,18 +793,16 @@ def history_info(case, expected, outcomes):
     elif klass == 'value_or_malformed':
         klass = 'deep_wellformed:' + ('value' if outcomes[0][2] == 'ret' else 'malformed')
     invalid = klass in ('notfound', 'malformed') or klass.endswith(':malformed')
+    kind = case.get('kind') or '?'
     labels = [
         'stack:' + case['stack'], 'ct:' + case['ct'], 'handler:' + case['handler'],
-        'body:' + case.get('kind', '?'), 'ref:' + klass,
+        'body:' + ('wrong_encoding' if kind.startswith('enc:') else kind), 'ref:' + klass,
         'ops:%s' % (len(ops) if len(ops) < 4 else '4+'),
-        'first_op:' + ops[0][0],
     ]
     if mixing:
         labels.append('mixing_defaults')
     if case['stack'] == 'asgi':
         labels.append('asgi:' + ('chunked' if any(case['chunks']) and case['body'] else 'single_event'))
-    if len(expected) > 1 and klass == 'malformed':
-        labels.append('malformed:' + str(expected[1]))
     return Info(invalid or mixing, labels)
 
 
@@ -924,12 +924,17 @@ def _wrap(doc, n, key):
     return doc
 
 
+def _extend_doc(children):
+    return st.one_of(st.lists(children, max_size=4), st.dictionaries(_text, children, max_size=4))
+
+
+def _extend_latin(children):
+    return st.one_of(st.lists(children, min_size=1, max_size=3),
+                     st.dictionaries(st.just('k'), children, min_size=1, max_size=1))
+
+
 def any_docs(max_leaves=12):
-    base = st.recursive(
-        _scalars,
-        lambda ch: st.one_of(st.lists(ch, max_size=4), st.dictionaries(_text, ch, max_size=4)),
-        max_leaves=max_leaves,
-    )
+    base = st.recursive(_scalars, _extend_doc, max_leaves=max_leaves)
     nested = st.builds(_wrap, base, st.integers(0, 5), _text)
     return st.one_of(base, nested).map(_clip)
 
@@ -967,8 +972,7 @@ _json_text = st.builds(_render, any_docs(8), st.booleans(), st.sampled_from([Non
                        st.sampled_from([None, (',', ':')]), _ws, _ws)
 _latin_doc = st.recursive(
     st.text(alphabet=st.characters(min_codepoint=0x20, max_codepoint=0xff), min_size=1, max_size=6),
-    lambda ch: st.one_of(st.lists(ch, min_size=1, max_size=3), st.dictionaries(st.just('k'), ch, min_size=1, max_size=1)),
-    max_leaves=4)
+    _extend_latin, max_leaves=4)
 
 
 def _cut(data, frac):
